@@ -148,7 +148,19 @@ class Probe:
                 for lv in self.levels(ch):
                     recs = tracer.steps.get(id(lv), [])
                     for r in recs[-op[1]:] if op[1] else []:
-                        extras += len([m for m in r['model'] if m[0] == 'update'])
+                        nupd = len([m for m in r['model'] if m[0] == 'update'])
+                        extras += nupd
+                        # ... and only inside the adaptation window, by the harness's own reading of the clock (jump interval 1:
+                        # the update after iteration `it` sees nsteps = it - 1; without reset_after_swap the window start is fixed)
+                        pr = lv.proposal_dist.proposals[0]
+                        if cfg.prop_kind == 'cw' and not getattr(cfg, 'ras', False) and hasattr(pr, 'adaptation_duration'):
+                            it = r.get('iteration_after')
+                            dk_ = it - pr.start_step
+                            expect = len(pr.parameters) if 1 < dk_ < pr.adaptation_duration else 0
+                            if it is not None and nupd != expect:
+                                self.problems.append(('iteration %d: the componentwise adaptation evaluated the model %d times, %d expected '
+                                                      '(step %d of an adaptation window of %d)' % (it, nupd, expect, dk_, pr.adaptation_duration),
+                                                      dict(op=op)))
             want += extras
         elif kind == 'fresh' and cfg.seed % 3 == 0:
             want = nlev          # the placeholder start set on the fresh sampler before the state is loaded: one evaluation per level
